@@ -291,3 +291,199 @@ Proof.
     rewrite (digits_ordinary _ F3). rewrite andb_true_r.
     apply orb_prop in F1. destruct F1 as [F1|F1]; apply N.eqb_eq in F1; subst c; reflexivity.
 Qed.
+
+(* ------------------------------------------------------------------ *)
+(* hexadecimal numbers: EUI48, EUI64, NID, L64                         *)
+(* ------------------------------------------------------------------ *)
+Lemma be_app' a b acc : be (a ++ b) acc = be b (be a acc).
+Proof. revert acc. induction a as [|x a IH]; intros acc; cbn; [reflexivity|apply IH]. Qed.
+Lemma be_u16' n : n < 65536 -> be (u16 n) 0 = n.
+Proof. intro H. unfold u16. cbn [be]. lia. Qed.
+Lemma be_u32' n : n < 4294967296 -> be (u32 n) 0 = n.
+Proof. intro H. unfold u32. cbn [be]. lia. Qed.
+Lemma be_u32_acc' v acc : v < 4294967296 -> be (u32 v) acc = acc * 4294967296 + v.
+Proof. intro H. unfold u32. cbn [be]. lia. Qed.
+Lemma be_u48' n : n < 281474976710656 -> be (u48 n) 0 = n.
+Proof. intro H. unfold u48. rewrite be_app', be_u16' by lia. rewrite be_u32_acc' by lia. lia. Qed.
+Lemma be_u64' n : n < 18446744073709551616 -> be (u64 n) 0 = n.
+Proof. intro H. unfold u64. rewrite be_app', be_u32' by lia. rewrite be_u32_acc' by lia. lia. Qed.
+Lemma wfb_u48 n : wfb (u48 n).
+Proof. unfold u48, u16, u32. cbn [app]. repeat constructor; apply N.mod_lt; lia. Qed.
+Lemma wfb_u64 n : wfb (u64 n).
+Proof. unfold u64, u32. cbn [app]. repeat constructor; apply N.mod_lt; lia. Qed.
+
+Lemma hexval_hexdigit x : x < 16 -> hexval (N_of_ascii (hexdigit x)) = x.
+Proof. intro H. unfold hexval. rewrite ascii_N_embedding. now apply hexdigit_val. Qed.
+Lemma hexdigits_checked :
+  forallb (fun x => is_hexdigit (N_of_ascii (hexdigit x)) && is_hexdigit (upper (N_of_ascii (hexdigit x))))
+          [0; 1; 2; 3; 4; 5; 6; 7; 8; 9; 10; 11; 12; 13; 14; 15] = true.
+Proof. vm_compute. reflexivity. Qed.
+Lemma is_hexdigit_hexdigit x : x < 16 ->
+  is_hexdigit (N_of_ascii (hexdigit x)) = true /\ is_hexdigit (upper (N_of_ascii (hexdigit x))) = true.
+Proof.
+  intro H. pose proof hexdigits_checked as C. rewrite forallb_forall in C.
+  assert (Hin : In x [0; 1; 2; 3; 4; 5; 6; 7; 8; 9; 10; 11; 12; 13; 14; 15]).
+  { cbn [In]. lia. }
+  specialize (C x Hin). now apply andb_prop in C.
+Qed.
+
+Lemma hex_bytes_cons b r :
+  hex_bytes (b :: r) = N_of_ascii (hexdigit (b / 16)) :: N_of_ascii (hexdigit (b mod 16)) :: hex_bytes r.
+Proof. reflexivity. Qed.
+
+Lemma hex_bytes_app a b : hex_bytes (a ++ b) = hex_bytes a ++ hex_bytes b.
+Proof. induction a as [|x a IH]; [reflexivity|]. cbn [app]. rewrite !hex_bytes_cons, IH. reflexivity. Qed.
+
+Lemma hex_bytes_hexdigits w : wfb w ->
+  forallb is_hexdigit (hex_bytes w) = true /\ forallb is_hexdigit (upper_bytes (hex_bytes w)) = true.
+Proof.
+  induction w as [|b r IH]; intro H; [split; reflexivity|].
+  inversion H as [|? ? Hb Hr]; subst. destruct (IH Hr) as [I1 I2]. rewrite hex_bytes_cons.
+  destruct (is_hexdigit_hexdigit (b / 16) ltac:(apply N.div_lt_upper_bound; lia)) as [A1 A2].
+  destruct (is_hexdigit_hexdigit (b mod 16) ltac:(apply N.mod_lt; lia)) as [B1 B2].
+  unfold upper_bytes. cbn [map forallb]. fold (upper_bytes (hex_bytes r)).
+  rewrite A1, A2, B1, B2, I1, I2. split; reflexivity.
+Qed.
+
+Lemma hexnum_hex_bytes w : wfb w -> forall acc, hexnum (hex_bytes w) acc = be w acc.
+Proof.
+  induction w as [|b r IH]; intros H acc; [reflexivity|].
+  inversion H as [|? ? Hb Hr]; subst. rewrite hex_bytes_cons. cbn [hexnum be].
+  rewrite !hexval_hexdigit by (apply N.div_lt_upper_bound || apply N.mod_lt; lia).
+  rewrite IH by exact Hr. f_equal. lia.
+Qed.
+
+Lemma hexval_upper c : c < 256 -> hexval (upper c) = hexval c.
+Proof. intro H. unfold hexval. now apply unhexdigit_upper. Qed.
+Lemma hexnum_upper s : wfb s -> forall acc, hexnum (upper_bytes s) acc = hexnum s acc.
+Proof.
+  induction s as [|c r IH]; intros H acc; [reflexivity|].
+  inversion H as [|? ? Hc Hr]; subst. cbn [upper_bytes map hexnum]. fold (upper_bytes r).
+  rewrite hexval_upper by exact Hc. now apply IH.
+Qed.
+Lemma wfb_hex_bytes w : wfb (hex_bytes w).
+Proof.
+  induction w as [|b r IH]; [constructor|]. rewrite hex_bytes_cons.
+  constructor; [apply N_ascii_bounded|]. constructor; [apply N_ascii_bounded|exact IH].
+Qed.
+
+Lemma parse_hex_nonempty s : s <> [] ->
+  parse_hex s = if forallb is_hexdigit s then Some (hexnum s 0) else None.
+Proof. destruct s; [congruence|reflexivity]. Qed.
+
+Lemma parse_hex_hex_bytes w (up : bool) : wfb w -> w <> [] ->
+  parse_hex (if up then upper_bytes (hex_bytes w) else hex_bytes w) = Some (be w 0).
+Proof.
+  intros H Hne. destruct (hex_bytes_hexdigits w H) as [D1 D2].
+  assert (Hn : hex_bytes w <> []) by (destruct w; [congruence|rewrite hex_bytes_cons; discriminate]).
+  destruct up.
+  - rewrite parse_hex_nonempty.
+    + rewrite D2. rewrite hexnum_upper by apply wfb_hex_bytes. now rewrite hexnum_hex_bytes.
+    + intro E. unfold upper_bytes in E. apply map_eq_nil in E. contradiction.
+  - rewrite parse_hex_nonempty by exact Hn. rewrite D1. now rewrite hexnum_hex_bytes.
+Qed.
+
+(* EUI *)
+Lemma join_cons2 sep (x y : bytes) r : join_bytes sep (x :: y :: r) = x ++ sep ++ join_bytes sep (y :: r).
+Proof. reflexivity. Qed.
+
+Lemma eui_digits_step k a b r :
+  eui_digits (S (S k)) (a :: b :: 45 :: r) =
+  match eui_digits (S k) r with Some d => Some (a :: b :: d) | None => None end.
+Proof. reflexivity. Qed.
+
+Lemma eui_digits_join bs : bs <> [] ->
+  eui_digits (length bs) (join_bytes [45] (map (fun b => hex_bytes [b]) bs)) = Some (hex_bytes bs).
+Proof.
+  induction bs as [|b r IH]; intro H; [congruence|].
+  destruct r as [|b2 r2].
+  - reflexivity.
+  - cbn [map length]. cbn [length map] in IH.
+    rewrite (join_cons2 [45]). rewrite (hex_bytes_cons b []). change (hex_bytes []) with (@nil N). cbn [app].
+    rewrite eui_digits_step. rewrite IH by discriminate. now rewrite (hex_bytes_cons b).
+Qed.
+
+Lemma join_dash_ordinary bs : wfb bs ->
+  forallb ordinary (join_bytes [45] (map (fun b => hex_bytes [b]) bs)) = true.
+Proof.
+  induction bs as [|b r IH]; intro H; [reflexivity|]. inversion H as [|? ? Hb Hr]; subst.
+  assert (O1 : forallb ordinary (hex_bytes [b]) = true) by (apply hex_bytes_ordinary; now constructor).
+  destruct r as [|b2 r2]; [exact O1|].
+  cbn [map]. rewrite (join_cons2 [45]). rewrite !ordinary_app, O1. cbn [map] in IH. rewrite IH by exact Hr. reflexivity.
+Qed.
+
+Definition eui_ok (k : nat) (n : N) : Prop :=
+  (k = 6%nat /\ n < 281474976710656) \/ (k = 8%nat /\ n < 18446744073709551616).
+
+Lemma eui_roundtrip k n : eui_ok k n ->
+  word_ok (eui_to_string k n) = true /\ parse_eui k (eui_to_string k n) = Some n.
+Proof.
+  intros [[-> H]|[-> H]]; unfold eui_to_string, parse_eui; cbn [Nat.eqb].
+  - split.
+    + apply word_ok_ordinary; [unfold u48, u16, u32; discriminate|apply join_dash_ordinary, wfb_u48].
+    + change 6%nat with (length (u48 n)). rewrite eui_digits_join by (unfold u48, u16; discriminate).
+      rewrite (parse_hex_hex_bytes (u48 n) false (wfb_u48 n)) by (unfold u48, u16; discriminate).
+      now rewrite be_u48'.
+  - split.
+    + apply word_ok_ordinary; [unfold u64, u32; discriminate|apply join_dash_ordinary, wfb_u64].
+    + change 8%nat with (length (u64 n)). rewrite eui_digits_join by (unfold u64, u32; discriminate).
+      rewrite (parse_hex_hex_bytes (u64 n) false (wfb_u64 n)) by (unfold u64, u32; discriminate).
+      now rewrite be_u64'.
+Qed.
+
+(* NID, L64 *)
+Lemma upper_cons58 l : upper_bytes (58 :: l) = 58 :: upper_bytes l.
+Proof. reflexivity. Qed.
+Lemma upper_ordinary l : forallb ordinary l = true -> forallb ordinary (upper_bytes l) = true.
+Proof.
+  induction l as [|x l IH]; [reflexivity|]. cbn [forallb upper_bytes map]. fold (upper_bytes l).
+  intro O. apply andb_prop in O. destruct O as [O1 O2]. rewrite IH by exact O2. rewrite andb_true_r.
+  unfold upper. destruct ((97 <=? x) && (x <=? 122)) eqn:E; [|exact O1].
+  unfold ordinary, word_special.
+  repeat match goal with |- context [?u =? ?v] => let b := fresh in destruct (N.eqb_spec u v) as [b|b]; [lia|] end.
+  reflexivity.
+Qed.
+
+Lemma parse_nodeid_groups p0 p1 p2 p3 :
+  length p0 = 4%nat -> length p1 = 4%nat -> length p2 = 4%nat -> length p3 = 4%nat ->
+  parse_nodeid (p0 ++ 58 :: p1 ++ 58 :: p2 ++ 58 :: p3) = parse_hex (p0 ++ p1 ++ p2 ++ p3).
+Proof.
+  intros H0 H1 H2 H3.
+  destruct p0 as [|a0 [|a1 [|a2 [|a3 [|? ?]]]]]; try discriminate.
+  destruct p1 as [|b0 [|b1 [|b2 [|b3 [|? ?]]]]]; try discriminate.
+  destruct p2 as [|c0 [|c1 [|c2 [|c3 [|? ?]]]]]; try discriminate.
+  destruct p3 as [|d0 [|d1 [|d2 [|d3 [|? ?]]]]]; try discriminate.
+  unfold parse_nodeid. cbn [app length nth firstn skipn Nat.ltb Nat.leb]. rewrite N.eqb_refl. reflexivity.
+Qed.
+
+Lemma nodeid_roundtrip up n : n < 18446744073709551616 ->
+  word_ok (nodeid_to_string up n) = true /\ parse_nodeid (nodeid_to_string up n) = Some n.
+Proof.
+  intro H. pose proof (wfb_u64 n) as W. pose proof (be_u64' n H) as B.
+  unfold nodeid_to_string. unfold u64, u32 in *. cbn [app] in *.
+  set (a := (n / 4294967296 / 16777216) mod 256) in *. set (b := (n / 4294967296 / 65536) mod 256) in *.
+  set (c := (n / 4294967296 / 256) mod 256) in *. set (d := (n / 4294967296) mod 256) in *.
+  set (e := (n mod 4294967296 / 16777216) mod 256) in *. set (f := (n mod 4294967296 / 65536) mod 256) in *.
+  set (g := (n mod 4294967296 / 256) mod 256) in *. set (h := (n mod 4294967296) mod 256) in *.
+  clearbody a b c d e f g h.
+  assert (Wab : wfb [a; b]) by (inversion W as [|? ? ? W1]; inversion W1; subst; repeat constructor; assumption).
+  assert (Hx : hex_bytes [a; b] ++ hex_bytes [c; d] ++ hex_bytes [e; f] ++ hex_bytes [g; h] = hex_bytes [a; b; c; d; e; f; g; h])
+    by reflexivity.
+  assert (L : forall x y, length (hex_bytes [x; y]) = 4%nat) by reflexivity.
+  split.
+  - apply word_ok_ordinary; [destruct up; discriminate|].
+    assert (O : forallb ordinary (hex_bytes [a; b] ++ [58] ++ hex_bytes [c; d] ++ [58] ++ hex_bytes [e; f] ++ [58] ++ hex_bytes [g; h]) = true).
+    { assert (Og : forall x y, wfb [x; y] -> forallb ordinary (hex_bytes [x; y]) = true) by (intros; now apply hex_bytes_ordinary).
+      inversion W as [|? ? Ha W1]; subst. inversion W1 as [|? ? Hb W2]; subst. inversion W2 as [|? ? Hc W3]; subst.
+      inversion W3 as [|? ? Hd W4]; subst. inversion W4 as [|? ? He W5]; subst. inversion W5 as [|? ? Hf W6]; subst.
+      inversion W6 as [|? ? Hg W7]; subst. inversion W7 as [|? ? Hh W8]; subst.
+      rewrite !ordinary_app. rewrite !Og by (repeat constructor; assumption). reflexivity. }
+    destruct up; [|exact O]. now apply upper_ordinary.
+  - destruct up.
+    + repeat (rewrite ?upper_app, ?upper_cons58).
+      rewrite parse_nodeid_groups by (unfold upper_bytes; rewrite map_length; apply L).
+      rewrite <- !upper_app, Hx.
+      rewrite (parse_hex_hex_bytes [a; b; c; d; e; f; g; h] true W) by discriminate. now rewrite B.
+    + rewrite parse_nodeid_groups by apply L. rewrite Hx.
+      rewrite (parse_hex_hex_bytes [a; b; c; d; e; f; g; h] false W) by discriminate. now rewrite B.
+Qed.
